@@ -19,7 +19,16 @@ the random generator as an explicit value), the models tied to hcipy by harness/
 * scaling: `phase_inverse_wavelength`, `sqrt_strength_amplitude`, `phase_sqrt_strength` (induction over every later
   screen of the infinite layer, numeric `arRun`), `ar_sample_scales`, `synth_scales`;
 * periodicity: `shift_composes`, `shift_period_of_character`, `wrap_onto_one_period_counterexample`;
-* infinite-layer independence: `independent_only_on_request_infinite`, `independent_draws_fresh_numbers_infinite`.
+* infinite-layer independence: `independent_only_on_request_infinite`, `independent_draws_fresh_numbers_infinite`;
+* synthesis executed (`C15 synth`: `Shift.synth` with the exact character into `ℚ[ℤ/M]`, compared with
+  `fourier.backward(C).real`): `synth_cyc_eval`, `synth_cyc_is_character_synth`; `finite_layer_translates` carries the
+  synthesis hypothesis `hback` explicitly; sub-pixel bookkeeping `subpixel_offset_decomposition_partial`;
+* scaling with `Cn_squared` changed on the running layer: `phase_sqrt_strength_live`, `arRunLive_const`;
+* generators as heap cells (`Model/LayerHeap.lean`, driver `hfin`/`hinf`): `heap_simulates_finite/_infinite`,
+  `heap_new_finite/_infinite`, `caller_generator_invisible_finite/_infinite`, `heap_replay_after_reset_finite`;
+  counterexamples `caller_generator_shared_counterexample(_infinite)` (D151), `reset_without_deepcopy_counterexample`;
+* the finite layer's lazy noise / cached screen (`FinC`): `read_after_evolve_is_fresh`, `setter_then_read_is_stale`,
+  `finC_refines_finL`.
 
 Hypothesis used by the spectral theorems: `χ` is an additive character (`χ (a+b) = χ a * χ b`) —
 satisfied by `t ↦ exp(i t)`; the counterexample uses the character `n ↦ (-1)^n` of `ℤ`.
@@ -308,8 +317,8 @@ example : ((InfL.new 3 2 (1/4, 1/4) (1/4, 0) ⟨1, 10⟩ 7).evolveWith sideX sid
 wind: the sample of pixel (1,0) is found at pixel (0,0). -/
 theorem direction_old_counterexample :
     let L := InfL.new 3 2 (1/4, 1/4) (1/4, 0) ⟨1, 10⟩ 7
-    (L.evolveWith sideXOld sideYOld 1).screen[0 * 3 + 0]? = L.screen[0 * 3 + 1]? ∧
-    (L.evolveWith sideXOld sideYOld 1).screen[0 * 3 + 1]? ≠ L.screen[0 * 3 + 0]? := by decide +kernel
+    (L.evolveWith Old.sideX Old.sideY 1).screen[0 * 3 + 0]? = L.screen[0 * 3 + 1]? ∧
+    (L.evolveWith Old.sideX Old.sideY 1).screen[0 * 3 + 1]? ≠ L.screen[0 * 3 + 0]? := by decide +kernel
 
 
 /-- The shape hypothesis of `evolve_translates` holds for every layer that exists: every reset (hence
@@ -734,8 +743,8 @@ theorem heap_new_infinite (k : SeedKind) (nx ny : Nat) (delta vel : V2) (par : P
 
 /-- **A caller-owned generator is invisible (repaired construction).**  The layer was built from a `Generator`
 object (cell 0) of which it took a snapshot; whatever the caller draws from its generator, whenever, the layer
-shows exactly what the value-level layer shows under the layer's own operations — in particular every replay
-theorem holds with the caller's draws interleaved anywhere. -/
+shows exactly what the value-level layer shows under the layer's own operations — in particular every replay theorem
+holds with the caller's draws interleaved anywhere. -/
 theorem caller_generator_invisible_finite (nx ny : Nat) (vel : V2) (par : Par) (g : Rng) (h : List (HOp COp))
     (hc : ∀ o ∈ h, ∀ c n, o = HOp.foreign c n → c = 0) :
     ((HFin.new .gen nx ny vel par g).runH finAccess h).view finAccess
